@@ -54,9 +54,10 @@ def cobs_catalogue(tier):
     return c
 
 
-SCALARS = [{'t': 'num', 'k': k} for k in ('int', 'float', 'negfloat', 'complex', 'npfloat', 'npint')]
+SCALARS = [{'t': 'num', 'k': k} for k in ('int', 'float', 'negfloat', 'complex', 'npfloat', 'npint', 'complex0', 'npcomplex')]
 ARRAYS = [{'t': 'arr', 'k': 'f2'}, {'t': 'arr', 'k': 'i3'}]
-SCALAR_VALUES = {'int': 2, 'float': 0.5, 'negfloat': -1.5, 'complex': 1 + 2j, 'npfloat': np.float64(0.75), 'npint': np.int64(3)}
+SCALAR_VALUES = {'int': 2, 'float': 0.5, 'negfloat': -1.5, 'complex': 1 + 2j, 'npfloat': np.float64(0.75), 'npint': np.int64(3),
+                 'complex0': complex(2.0, 0.0), 'npcomplex': np.complex128(0.5 - 1j)}
 ARRAY_VALUES = {'f2': np.array([0.5, 2.5]), 'i3': np.array([1, 2, 3])}
 
 
@@ -233,7 +234,7 @@ def compare_identity(pe, got, exp_re, exp_im):
 
 
 def is_complex_spec(s):
-    return s['t'] == 'cobs' or (s['t'] == 'num' and s['k'] == 'complex')
+    return s['t'] == 'cobs' or (s['t'] == 'num' and 'complex' in s['k'])
 
 
 # ------------------------------------------------------------------ case lists
